@@ -386,7 +386,8 @@ def run_asgi(prefix, kind, n_items, raise_at, gate_sends, slow_close, with_disco
                             burst[1] += 1
                         else:
                             burst[0], burst[1] = stepno[0], 1
-                        obs["max_burst"] = max(obs.get("max_burst", 0), burst[1])
+                        if gate_sends:  # (a server that writes at once lets the whole exchange run in one callback: nothing to see)
+                            obs["max_burst"] = max(obs.get("max_burst", 0), burst[1])
                         if srv["gone"]:
                             obs["post_disc_items"].append(i)
                     else:
@@ -829,6 +830,9 @@ def asgi_extra_configs(tier):
     for kind in ("stream", "sse"):
         for disc in (False, True):
             out.append(((kind, 4, None, True, False, disc, 1, None), "eager", None))  # a producer that never suspends, a server that does
+        for ra in (1, 3):
+            for gs in (False, True):
+                out.append(((kind, 3, ra, gs, False, False, 1, None), "eager", None))  # ... and that fails right after an item, without a pause
     return out
 
 
